@@ -517,16 +517,8 @@ func (pool *BlockPool) commitDone(blkNum uint32, C uint32, N uint32) (uint32, bo
 		// check consensus with endorse sigs
 		var emptyCnt uint32
 		endorseCnt := make(map[uint32]uint32) // proposer -> endorsed-cnt
-		for endorser, eSigs := range candidate.EndorseSigs {
-			// check if from endorser
-			if !pool.server.isEndorser(blkNum, endorser) {
-				for _, sig := range eSigs {
-					if sig.ForEmpty {
-						emptyCnt++
-					}
-				}
-			}
-
+		for _, eSigs := range candidate.EndorseSigs {
+			// every participant's vote for the empty block counts once, endorser or not
 			for _, sig := range eSigs {
 				if sig.ForEmpty {
 					emptyCnt++
